@@ -570,6 +570,10 @@ func (x *pexec) doParse(op *Op, wrapped bool) string {
 		}
 	}
 	if pn != "" {
+		if wrapped {
+			// a wrapped parser that panics or spins has not streamed the reader
+			x.libPanic(name, pn, hang, "C16", "C08")
+		}
 		x.libPanic(name, pn, hang, "C16")
 	}
 	ob := fmt.Sprintf("%s f=%d n=%d err=%s %s", name, op.F, n, errName(err), seqString(blk))
